@@ -309,3 +309,62 @@ def style_unit(cname):
 
 for _c in STYLE_GRAMMARS:
     style_unit(_c)
+
+
+# ------------------------------------------------------------------------------------------------ __format__: what is done with the interpretation
+@unit(("C19", "C05"), "common:BaseImage.__format__")
+def u_format(ctx):
+    """"formatting with a specifier equals drawing with the equivalent explicit parameters": the result of format() is the render of
+    the image under the interpreted transparency / style arguments, padded by `_format_render` with exactly the interpreted
+    alignment and padding size.  `_format_render` is known by its C05 contract only: a function of its arguments that returns
+    the render unchanged when the padding is no larger than the render on BOTH axes - so a short-cut that is right is accepted,
+    one that skips the padding in other cases is not."""
+    eng = ctx.engine("C19/BaseImage.__format__", "C19")
+    eng.default_replay = "C19.format_vs_draw"
+    st = State()
+    I_ = z3.IntSort()
+    ha, va, width, height, alpha, rw, rh = z3.Ints("h_align pad_width v_align pad_height alpha r_width r_height")
+    st.pc += [width >= 1, height >= 1, rw >= 1, rh >= 1]
+    FR = z3.Function("format_render", I_, I_, I_, I_, I_, I_)
+    RENDER = z3.Function("render_under", I_, I_, I_)
+    style = st.new("dict", {"@items": {"some_style_argument": z3.Int("style_argument_value")}})
+    self_ = st.new("BlockImage", {})
+    eng.methods[("BlockImage", "_check_format_spec")] = lambda e, s, recv, a, k: [((ha, width, va, height, alpha, style), s)] + (e.raise_(ExcVal("ValueError"), e.fork(s)) or [])
+    eng.attrs[("BlockImage", "_render_image")] = lambda e, s, v: [(Opaque("bound _render_image"), s)]
+    eng.attrs[("BlockImage", "rendered_size")] = lambda e, s, v: [((rw, rh), s)]
+    eng.attrs[("BlockImage", "rendered_width")] = lambda e, s, v: [(rw, s)]
+    eng.attrs[("BlockImage", "rendered_height")] = lambda e, s, v: [(rh, s)]
+    st.ghost["renders"] = []
+
+    def renderer(e, s, recv, a, k):
+        s = e.fork(s)
+        ok = len(a) >= 2 and isinstance(a[0], Opaque) and "some_style_argument" in k and len(k) == 1
+        e.oblige("rendered-with-the-interpreted-transparency-and-style-arguments", s, And(ok, Eq(a[1], alpha) if len(a) >= 2 else False,
+                                                                                      Eq(k.get("some_style_argument"), z3.Int("style_argument_value"))), kind="pre")
+        s.ghost["renders"] = s.ghost["renders"] + [1]
+        return [(RENDER(to_z3(a[1]) if len(a) >= 2 and is_sym(a[1]) else z3.IntVal(-1), z3.Int("style_argument_value")), s)]
+    eng.methods[("BlockImage", "_renderer")] = renderer
+
+    def format_render(e, s, recv, a, k):
+        if len(a) != 5 or k:
+            raise Unsupported("_format_render call shape")
+        r = FR(*[to_z3(x) for x in a])
+        s = e.fork(s)
+        # C05: padding no larger than the render on an axis has no effect on that axis
+        s.pc.append(z3.Implies(z3.And(to_z3(a[2]) <= rw, to_z3(a[4]) <= rh), r == to_z3(a[0])))
+        return [(r, s)]
+    eng.methods[("BlockImage", "_format_render")] = format_render
+    st.env.update(self=self_, spec=Opaque("spec"))
+    outs = run_function(eng, ctx.fn(COMMON, "BaseImage.__format__"), st)
+    the_render = RENDER(alpha, z3.Int("style_argument_value"))
+    for kind, val, s in outs:
+        if kind == "raise":
+            eng.oblige("only-the-specifier-check's-error-escapes,before-anything-is-rendered", s, And(val.cls == "ValueError", s.ghost["renders"] == []), kind="raise")
+            continue
+        s2 = s.fork()
+        want = FR(the_render, ha, width, va, height)
+        s2.pc.append(z3.Implies(z3.And(width <= rw, height <= rh), want == the_render))
+        for pr_ in ("C19", "C05"):
+            eng.oblige("result=the-render-padded-with-exactly-the-interpreted-alignment-and-padding-size" + ("" if pr_ == "C19" else "(C05:each-axis-on-its-own)"), s2,
+                       And(is_sym(val) and z3.is_int(val), val == want if is_sym(val) and z3.is_int(val) else False, len(s.ghost["renders"]) == 1), prop=pr_, kind="post")
+    return eng.obligations
